@@ -455,9 +455,10 @@ class Bisim:
             if getattr(self, "generalize_counters", False):
                 self._havoc_counters()
             cn = Canon(w)
-            # opt-in (Bisim.deep_keys, or PYVC_DEEP_KEYS=1 for every bisimulation): cut keys follow `yield from` into
-            # sub-generators that no variable refers to
-            cn.deep = getattr(self, "deep_keys", False) or os.environ.get("PYVC_DEEP_KEYS") == "1"
+            # cut keys follow `yield from` into sub-generators that no variable refers to (default; a bisimulation may opt out with
+            # deep_keys = False and must then say so in its assumptions; PYVC_DEEP_KEYS=0/1 overrides for experiments)
+            env_deep = os.environ.get("PYVC_DEEP_KEYS")
+            cn.deep = (env_deep == "1") if env_deep in ("0", "1") else getattr(self, "deep_keys", True)
             cn.exclude = set(self.canon_exclude)      # (function qualname, local name) pairs abstracted away by a cut invariant
             for side in (self.impl, self.ref):
                 fr = getattr(side.gen, "frame", None)
